@@ -14,6 +14,7 @@ type qeGen struct {
 	// knobs
 	pFilter, pStats, pSort, pLimit, pAuth, pBackends, pWrapped, pGrouped, pIndexLeaf int // percent
 	maxDepth                                                                         int
+	pCutoff                                                                          int // percent of hosts/services requests of the cut-off shape
 	tables                                                                           []string
 	hist                                                                             map[string]int
 }
@@ -417,7 +418,12 @@ func (g *qeGen) cutoffRequest(table string) string {
 
 		return vPick(r, names)
 	}
-	switch r.intn(5) {
+	shape := r.intn(5)
+	if g.pCutoff > 0 && r.chance(1, 2) {
+		shape = 5 // cluster: the whole table, every node has to merge all its backends before it cuts
+	}
+	switch shape {
+	case 5:
 	case 0, 1:
 		rs := []rune(pickName())
 		n := 1 + r.intn(3)
@@ -465,7 +471,7 @@ func (g *qeGen) request() string {
 	r := g.r
 	table := vPick(r, g.tables)
 	g.count("table:" + table)
-	if g.pIndexLeaf > 0 && g.pLimit >= 50 && (table == "hosts" || table == "services") && r.chance(1, 5) {
+	if (table == "hosts" || table == "services") && (g.pIndexLeaf > 0 && g.pLimit >= 50 && r.chance(1, 5) || r.intn(100) < g.pCutoff) {
 		return g.cutoffRequest(table)
 	}
 	lines := []string{"GET " + table}
